@@ -33,6 +33,13 @@ pub enum E {
     Tup(i32, String),
     Struct { x: i32, y: Option<bool> },
 }
+/// variants without fields that are not unit variants
+#[derive(Serialize, Deserialize, PartialEq, Debug, Clone)]
+pub enum Z {
+    T(),
+    S {},
+    One(u8),
+}
 #[derive(Serialize, Deserialize, PartialEq, Eq, PartialOrd, Ord, Debug, Clone)]
 pub struct N(pub i32);
 #[derive(Serialize, Deserialize, PartialEq, Debug, Clone)]
@@ -132,6 +139,7 @@ pub fn run_case(id: u32, t: &[u8]) -> String {
         33 => both!(P, t, canon),
         34 => both!(BTreeMap<u64, String>, t, canon),
         35 => both!(BTreeMap<i8, ()>, t, canon),
+        36 => both!(Z, t, canon),
         // not modelled in Lean: compared with serde_json only
         40 => {
             // documented difference: sonic-rs reads an f32 through f64; the reference is serde_json's f64 narrowed
@@ -239,6 +247,7 @@ fn ty_of(id: u32) -> T {
         33 => T::Tuple(vec![T::Int(32, true), T::Bool]),
         34 => T::Map(K::Int(64, false), Box::new(T::Str)),
         35 => T::Map(K::Int(8, true), Box::new(T::Unit)),
+        36 => T::Enum(vec![("T", Some(T::Tuple(vec![]))), ("S", Some(T::Struct(vec![]))), ("One", Some(T::Int(8, false)))]),
         43 => T::Struct(vec![("id", T::Int(32, false)), ("s", T::Str), ("c", T::Str)]),
         44 => T::Any,
         45 => T::Struct(vec![("id", T::Int(32, false)), ("x", T::Int(32, true)), ("y", T::Int(32, true))]),
@@ -493,7 +502,7 @@ fn gen_for(r: &mut Rng, t: &T, depth: usize, out: &mut String) {
 }
 
 pub const IDS: &[u32] = &[
-    1, 2, 3, 4, 5, 6, 7, 8, 9, 10, 11, 12, 13, 14, 15, 16, 17, 18, 19, 20, 21, 22, 23, 24, 25, 26, 27, 28, 29, 30, 31, 32, 33, 34, 35, 40, 41, 42, 43, 44, 45, 46,
+    1, 2, 3, 4, 5, 6, 7, 8, 9, 10, 11, 12, 13, 14, 15, 16, 17, 18, 19, 20, 21, 22, 23, 24, 25, 26, 27, 28, 29, 30, 31, 32, 33, 34, 35, 36, 40, 41, 42, 43, 44, 45, 46,
 ];
 
 pub fn gen(seed: u64, thorough: bool) {
@@ -523,6 +532,27 @@ pub fn gen_tagged(seed: u64, thorough: bool, tag: &str) {
     for &id in IDS {
         for s in shapes {
             out.line(&format!("{} {} {}", tag, id, hex(s.as_bytes())));
+        }
+    }
+    // ignored members (unknown fields of the derived structs 23 and 31, IgnoredAny) holding long numbers whose dot / exponent
+    // stand at every offset of the 32-byte blocks of the validating number skipper, well-formed and with a doubled tail
+    let tails: &[&str] = &["", ".5", "e2", ".5.5", ".5.5e1", ".25.", "e1e1"];
+    for nd in 1..=100usize {
+        if !thorough && !(nd % 32 <= 2 || nd % 32 >= 29 || nd % 7 == 0) {
+            continue;
+        }
+        for (ti, tail) in tails.iter().enumerate() {
+            let mut num = String::new();
+            if (nd + ti) % 2 == 0 {
+                num.push('-');
+            }
+            for k in 0..nd {
+                num.push((b'1' + ((k * 5 + nd) % 9) as u8) as char);
+            }
+            num.push_str(tail);
+            out.line(&format!("{} 23 {}", tag, hex(format!("{{\"zz\":{},\"a\":7}}", num).as_bytes())));
+            out.line(&format!("{} 23 {}", tag, hex(format!("{{\"a\":7,\"zz\":[{}]}}", num).as_bytes())));
+            out.line(&format!("{} 25 {}", tag, hex(format!("{{\"Struct\":{{\"x\":1,\"zz\":{} ,\"y\":true}}}}", num).as_bytes())));
         }
     }
 }
